@@ -430,3 +430,20 @@ contract(MT + '_pair_function', params={'self': 'MainTransformer', 'func': 'Func
                  "calls_ordered('_pair_static_method', '_set_up_constructor') and calls_ordered('_setup_method', '_set_up_constructor')",
          },
          note='calls_ordered(a, b): no call of a after a call of b; so once a function has been set up in one role no further role is tried')
+
+
+contract(MT + '_uscored_identifier_for_type', params={'self': 'MainTransformer', 'typeval': 'Type'}, returns='str',
+         pure_keys=['self', 'typeval.target_giname'], trusted=True, raises={'AssertionError': 'maybe'},
+         note="default underscoring of the type's name (to_underscores_noprefix, regular expressions)")
+contract(MT + '_get_constructor_name', params={'self': 'MainTransformer', 'func': 'Function', 'subsymbol': 'str'},
+         returns='str?', props=('C04',),
+         requires=['func.retval is not None', 'func.retval.type is not None',
+                   'self._split_uscored_by_type(subsymbol) is not None or func.is_constructor'],
+         modifies=['func.name'], raises={'KeyError': 'True', 'AssertionError': 'True'},
+         let={'split': SPLIT},
+         ensures={
+             'C04.constructor.named_by_what_follows_the_owning_types_prefix':
+                 'implies(split is not None, result == split[1] and func.name == old(func.name))',
+             'C04.constructor.annotated_without_type_prefix_keeps_or_derives_its_name':
+                 'implies(split is None, result == func.name)',
+         })
